@@ -953,6 +953,11 @@ func accessibleFrom(info *types.Info, node ast.Node, wantPkg string) error {
 			return true
 		}
 		obj := info.ObjectOf(ident)
+		if obj == nil {
+			// Identifiers that denote no object, such as the blank identifier
+			// on the left-hand side of an assignment in a function literal.
+			return true
+		}
 		if _, ok := obj.(*types.PkgName); ok {
 			// Local package names are fine, since we can just reimport them.
 			return true
